@@ -1,6 +1,6 @@
 (* C07  Expression trees follow the C/C++ operator grammar: property statements only. *)
 From Coq Require Import List NArith Bool.
-From CV Require Import Ast.Defs Ast.Main1 Ast.Main2 Ast.NoDecl Ast.Main3 Ast.Main4 Ast.Labels Ast.Prep Ast.Final Ast.MainP.
+From CV Require Import Ast.Defs Ast.Frag Ast.Main1 Ast.Main2 Ast.NoDecl Ast.Main3 Ast.Main4 Ast.Labels Ast.Prep Ast.Final Ast.MainP.
 Import ListNotations.
 Local Open Scope N_scope.
 
